@@ -364,4 +364,139 @@ theorem lastLookup_of_split (t : Nat) (a : Arg) (pre post : List (Atom Arg))
   rw [List.foldl_append, List.foldl_cons, foldl_gstep_of_no_lookup t post _ h]
   simp only [gstep, if_true]
 
+/-! ### the keyed machine (cache indexed by `key a` instead of `a`) -/
+
+section Keyed
+
+variable {St Arg K Out : Type} [DecidableEq K]
+
+/-- every stored result is the one the body would compute now, for EVERY argument with that key -/
+def KCacheOk (m : KMethod St Arg K Out) (s : KState St K Out) : Prop :=
+  ∀ k o, (k, o) ∈ s.cache → ∀ a, m.key a = k → o = m.pureOut s.st a
+
+omit [DecidableEq K] in
+theorem kcacheOk_empty (m : KMethod St Arg K Out) (st : St) : KCacheOk m ⟨st, []⟩ := by
+  intro k o h; cases h
+
+theorem stepKeyed_call_hit (m : KMethod St Arg K Out) (s : KState St K Out) {a : Arg} {o : Out}
+    (h : s.cache.lookup (m.key a) = some o) : stepKeyed m s (.call a) = (s, some o) := by
+  simp only [stepKeyed, h]
+
+theorem stepKeyed_call_miss (m : KMethod St Arg K Out) (s : KState St K Out) {a : Arg}
+    (h : s.cache.lookup (m.key a) = none) :
+    stepKeyed m s (.call a)
+      = (⟨s.st, (m.key a, m.pureOut s.st a) :: s.cache⟩, some (m.pureOut s.st a)) := by
+  simp only [stepKeyed, h]
+
+theorem stepKeyed_mutate (m : KMethod St Arg K Out) (s : KState St K Out) (f : St → St) :
+    stepKeyed m s (.mutate f) = (⟨f s.st, s.cache⟩, none) := rfl
+
+/-- a call on a consistent cache answers like the reference machine -/
+theorem stepKeyed_call_snd (m : KMethod St Arg K Out) (s : KState St K Out) (a : Arg)
+    (hs : KCacheOk m s) : (stepKeyed m s (.call a)).2 = some (m.pureOut s.st a) := by
+  cases hl : s.cache.lookup (m.key a) with
+  | none => rw [stepKeyed_call_miss m s hl]
+  | some o => rw [stepKeyed_call_hit m s hl, hs _ o (mem_of_lookup_eq_some hl) a rfl]
+
+theorem stepKeyed_call_st (m : KMethod St Arg K Out) (s : KState St K Out) (a : Arg) :
+    (stepKeyed m s (.call a)).1.st = s.st := by
+  cases hl : s.cache.lookup (m.key a) with
+  | none => rw [stepKeyed_call_miss m s hl]
+  | some o => rw [stepKeyed_call_hit m s hl]
+
+/-- this is where `KeyRespects` is used: the value computed for `a` is stored for every argument
+with the key of `a` -/
+theorem stepKeyed_call_kcacheOk (m : KMethod St Arg K Out) (hk : KeyRespects m)
+    (s : KState St K Out) (a : Arg) (hs : KCacheOk m s) : KCacheOk m (stepKeyed m s (.call a)).1 := by
+  cases hl : s.cache.lookup (m.key a) with
+  | some o => rw [stepKeyed_call_hit m s hl]; exact hs
+  | none =>
+    rw [stepKeyed_call_miss m s hl]
+    intro k o hb b hbk
+    rcases List.mem_cons.1 hb with hb | hb
+    · cases hb; exact hk s.st a b hbk.symm
+    · exact hs k o hb b hbk
+
+theorem stepKeyed_mutate_kcacheOk (m : KMethod St Arg K Out) (s : KState St K Out) (f : St → St)
+    (hf : Independent m.toMethod f) (hs : KCacheOk m s) :
+    KCacheOk m (stepKeyed m s (.mutate f)).1 := by
+  intro k o h a hak
+  show o = m.pureOut (f s.st) a
+  rw [show m.pureOut (f s.st) a = m.pureOut s.st a from hf s.st a]; exact hs k o h a hak
+
+/-- the keyed machine started on any consistent cache is indistinguishable from the reference
+machine, provided the result is a function of the key and the mutations are invisible to the body -/
+theorem runKeyed_eq_runPure (m : KMethod St Arg K Out) (hk : KeyRespects m) :
+    ∀ (h : List (Op St Arg)) (s : KState St K Out), KCacheOk m s →
+      HistoryIndependent m.toMethod h → runKeyed m s h = runPure m.toMethod s.st h
+  | [], _, _, _ => rfl
+  | .call a :: rest, s, hs, hi => by
+    have ih := runKeyed_eq_runPure m hk rest (stepKeyed m s (.call a)).1
+      (stepKeyed_call_kcacheOk m hk s a hs) hi
+    show (stepKeyed m s (.call a)).2 :: runKeyed m (stepKeyed m s (.call a)).1 rest
+       = some (m.pureOut s.st a) :: runPure m.toMethod s.st rest
+    rw [ih, stepKeyed_call_snd m s a hs, stepKeyed_call_st]
+  | .mutate f :: rest, s, hs, hi => by
+    have ih := runKeyed_eq_runPure m hk rest (stepKeyed m s (.mutate f)).1
+      (stepKeyed_mutate_kcacheOk m s f hi.1 hs) hi.2
+    show none :: runKeyed m (stepKeyed m s (.mutate f)).1 rest
+       = none :: runPure m.toMethod (f s.st) rest
+    rw [ih]; rfl
+
+/-- the keyed machine on two calls whose arguments share a key: the second call is a hit and
+returns the value computed for the FIRST argument -/
+theorem runKeyed_collide (m : KMethod St Arg K Out) (st : St) {a b : Arg} (hab : m.key a = m.key b) :
+    runKeyed m ⟨st, []⟩ [.call a, .call b] = [some (m.pureOut st a), some (m.pureOut st a)] := by
+  simp [runKeyed, stepKeyed, List.lookup, hab]
+
+omit [DecidableEq K] in
+theorem runPure_two_calls (m : KMethod St Arg K Out) (st : St) (a b : Arg) :
+    runPure m.toMethod st [.call a, .call b] = [some (m.pureOut st a), some (m.pureOut st b)] := by
+  simp [runPure, stepPure, KMethod.toMethod]
+
+/-- the keyed machine on the "call, mutate, call again" history (same as the whole-argument one) -/
+theorem runKeyed_stale (m : KMethod St Arg K Out) (st : St) (f : St → St) (a : Arg) :
+    runKeyed m ⟨st, []⟩ [.call a, .mutate f, .call a]
+      = [some (m.pureOut st a), none, some (m.pureOut st a)] := by
+  simp [runKeyed, stepKeyed, List.lookup]
+
+omit [DecidableEq K] in
+/-- a history of calls only contains no mutation -/
+theorem historyIndependent_map_call (m : Method St Arg Out) :
+    ∀ as : List Arg, HistoryIndependent m (as.map Op.call)
+  | [] => trivial
+  | _ :: as => historyIndependent_map_call m as
+
+/-- with `key := id` the keyed machine IS the whole-argument machine, from every cache -/
+theorem runKeyed_id_eq_runMemo [DecidableEq Arg] (f : St → Arg → Out) :
+    ∀ (h : List (Op St Arg)) (st : St) (c : List (Arg × Out)),
+      runKeyed (⟨f, id⟩ : KMethod St Arg Arg Out) ⟨st, c⟩ h = runMemo ⟨f⟩ ⟨st, c⟩ h
+  | [], _, _ => rfl
+  | .call a :: rest, st, c => by
+    let km : KMethod St Arg Arg Out := ⟨f, id⟩
+    let mm : Method St Arg Out := ⟨f⟩
+    show (stepKeyed km ⟨st, c⟩ (.call a)).2 :: runKeyed km (stepKeyed km ⟨st, c⟩ (.call a)).1 rest
+       = (stepMemo mm ⟨st, c⟩ (.call a)).2 :: runMemo mm (stepMemo mm ⟨st, c⟩ (.call a)).1 rest
+    cases hl : c.lookup a with
+    | some o =>
+      have h1 : stepKeyed km ⟨st, c⟩ (.call a) = (⟨st, c⟩, some o) :=
+        stepKeyed_call_hit km ⟨st, c⟩ hl
+      have h2 : stepMemo mm ⟨st, c⟩ (.call a) = (⟨st, c⟩, some o) :=
+        stepMemo_call_hit mm ⟨st, c⟩ hl
+      rw [h1, h2]
+      exact congrArg _ (runKeyed_id_eq_runMemo f rest st c)
+    | none =>
+      have h1 : stepKeyed km ⟨st, c⟩ (.call a) = (⟨st, (a, f st a) :: c⟩, some (f st a)) :=
+        stepKeyed_call_miss km ⟨st, c⟩ hl
+      have h2 : stepMemo mm ⟨st, c⟩ (.call a) = (⟨st, (a, f st a) :: c⟩, some (f st a)) :=
+        stepMemo_call_miss mm ⟨st, c⟩ hl
+      rw [h1, h2]
+      exact congrArg _ (runKeyed_id_eq_runMemo f rest st ((a, f st a) :: c))
+  | .mutate g :: rest, st, c => by
+    show none :: runKeyed (⟨f, id⟩ : KMethod St Arg Arg Out) ⟨g st, c⟩ rest
+       = none :: runMemo ⟨f⟩ ⟨g st, c⟩ rest
+    exact congrArg _ (runKeyed_id_eq_runMemo f rest (g st) c)
+
+end Keyed
+
 end BipVerif.Model.Memo
